@@ -541,6 +541,35 @@ def check_http(ctx, case):
                                  k, L.calls[k][0], L.calls[k][1],
                                  type(exc).__name__, str(exc)[:100],
                                  case["kind"]))
+            # HTTP error statuses at every request of the operation
+            nreq = len(idxs)
+            for k in range(nreq):
+                for status in ("403", "404", "500", "503"):
+                    srv.reset_count()
+                    srv.set_faults([httpd.Fault(k, status)])
+                    exc = None
+                    got = None
+                    try:
+                        got = operation()
+                    except Exception as e:    # noqa
+                        exc = e
+                    finally:
+                        srv.set_faults([])
+                    n += 1
+                    if exc is None:
+                        if got != truth[pos]:
+                            ctx.fail("HTTP %s at request %d: fetch_chunk "
+                                     "returned wrong bytes (%s dataset)" % (
+                                         status, k, case["kind"]))
+                        continue
+                    if not isinstance(exc, ok_types):
+                        ctx.fail("HTTP %s at request %d of %d (%s %s) "
+                                 "surfaces as %s (%s) instead of a data-"
+                                 "access / I/O error (%s dataset)" % (
+                                     status, k, nreq, calls[k][0],
+                                     calls[k][1].split("/ds/")[-1],
+                                     type(exc).__name__, str(exc)[:80],
+                                     case["kind"]))
         return n
     finally:
         ctx.rmtree(root)
